@@ -184,7 +184,7 @@ def run(report, index, tier):
                      where='walkers.py:Walker.%s' % meth)
         # extract: n-th match or TypeError
         matches = [n for n in want if n != 'a']
-        for skip in range(0, len(matches) + 1):
+        for skip in [-2, -1] + list(range(0, len(matches) + 1)):
             ev = Evaluator(wm, 'Walker', wmethods, {},
                            is_subclass=lambda c, b: c == b or b == 'Node')
             ev.iter_hook = iter_hook
@@ -195,7 +195,7 @@ def run(report, index, tier):
                 got = ret.name if isinstance(ret, Obj) else ret
             except Raised as e:
                 got = 'raised'
-            exp = matches[skip] if skip < len(matches) else 'raised'
+            exp = matches[skip] if 0 <= skip < len(matches) else 'raised'
             r2.check(got == exp, 'extract tree%d skip%d' % (i, skip),
                      'Walker.extract(skip=%d) on abstract tree %d' % (
                          skip, i),
@@ -253,6 +253,56 @@ def run(report, index, tier):
                          meth, cls),
                      'yields %s, expected the node and its children %s' % (
                          got, want), where='walkers.py:Walker.%s' % meth)
+        # the same class with every list-valued attribute empty, followed
+        # by a sibling: an empty node must neither be skipped nor end the
+        # walk of its parent (the truth value python gives the instance -
+        # __bool__ / __len__ of its class - is used as python would)
+        if any(mult != 'one' for mult, _a in shape):
+            inst2 = Obj(cls, name=cls + '(empty)')
+            leaves2 = []
+            for mult, attr in shape:
+                if mult == 'one':
+                    lf = mk('%s.%s' % (cls, attr))
+                    setattr(inst2, attr, lf)
+                    leaves2.append(lf)
+                else:
+                    setattr(inst2, attr, [])
+
+            def kids2(inst2=inst2, chfn=chfn):
+                ev = Evaluator(am.module, inst2.__dict__['_cls'], {}, {})
+                ret, _ = ev.call(chfn, [], self_obj=inst2)
+                return list(ret)
+            inst2.children = ('pyfunc', kids2)
+            root2 = mk('root', inst2, mk('after'))
+            want2 = [inst2.name] + [lf.name for lf in leaves2] + ['after']
+            truth = {}
+            for nm in ('__bool__', '__len__', '__nonzero__'):
+                _o, fd = am.find_method(cls, nm)
+                if fd is not None:
+                    truth[nm] = fd
+            for meth in ('walk', 'filter'):
+                ev = Evaluator(wm, 'Walker', wmethods, {},
+                               is_subclass=lambda c, b: c == b or (
+                                   c in am.classes and
+                                   am.is_subclass(c, b)) or
+                               (c == 'Node' and b == 'Node'),
+                               class_methods={cls: truth} if truth else None)
+                for fd in truth.values():
+                    ev.context_of[id(fd)] = (am.module, cls)
+                ev.iter_hook = iter_hook
+                cond = ('pyfunc', lambda n: True)
+                try:
+                    _, ys = ev.call(wmethods[meth], [root2, cond],
+                                    self_obj=Obj('Walker'))
+                    got = [y.name for y in ys]
+                except Raised as e:
+                    got = 'raised %s' % e.text
+                r2.check(got == want2, '%s below an empty %s' % (meth, cls),
+                         'Walker.%s on an empty %s node followed by a '
+                         'sibling' % (meth, cls),
+                         'yields %s, expected %s' % (got, want2),
+                         where='walkers.py:Walker.%s / asttypes.py:%s' % (
+                             meth, cls))
     report.count('node classes walked', nclass)
     report.informational.append(
         'the `comments` attribute is attached by setpos and deliberately '
